@@ -634,9 +634,15 @@ func SummaryNilErr(fn *ssa.Function, idx int) []string {
 			return false, false
 		}
 		// a non-constant error value: may be nil only if it is a call result etc.
-		switch v.(type) {
+		switch x := v.(type) {
 		case *ssa.MakeInterface:
 			return false, false
+		case *ssa.Call:
+			// constructors that never return nil
+			switch CalleeName(x) {
+			case "fmt.Errorf", "errors.New":
+				return false, false
+			}
 		}
 		return true, false
 	})
